@@ -61,7 +61,7 @@ def _exh_worker(args):
 
 class C20:
     id = "C20"
-    theorems = []
+    theorems = ["C20_prefix", "C20_luid", "C20_luid_prop", "C20_curie_never", "C20_curie_no_space", "C20_curie"]
     lean_modules = ["CuriesVerif.Properties.C20"]
     rule = ("exhaustive: every string over one representative per character class (letter, digit, '_', '.', '-', ':', "
             "'/', '#', space, tab, newline, '[', ']', non-ASCII letter) up to length 4 (quick) / 6 (thorough), plus "
